@@ -59,7 +59,9 @@ class C02(Prop):
             if r >= 0.90 and r < 0.92 and n_f19 >= 6:
                 r = 0.0
             if r < 0.86:
-                spec = F.gen(rng, tier)
+                spec = F.gen(rng, tier, wide=(n % 3 != 0))           # two thirds with the wide pools (generator audit)
+                if n % 5 == 0:
+                    spec["styles"] = [rng.choice(["assign", "inplace"]) for _ in spec["pool"]]
             elif r < 0.90:                                   # F11 stream: identity collision under a pre-1.1 header
                 spec = F.gen(rng, tier, version=rng.choice(["0.0", "1.0"]))
                 if not spec["pool"]:
@@ -86,6 +88,12 @@ class C02(Prop):
                                      ("implant_md5", "ABC"), ("bootable", 1), ("subvariant", None), ("additional_variants", ["x"]),
                                      ("mtime", "1"), ("disc_count", None), ("arch", ""), ("unified", None), ("disc_number", 1.5),
                                      ("checksums", {"md5": {"$other": True}})])
+                if n % 2:
+                    # falsy values of every type for every attribute, round-robin (legal ones must round-trip, the others be refused)
+                    f = F.rr(F.FIELDS)
+                    val = F.rr([None, False, 0, {"$float": "0.0"}, "", [], {}, {"$other": False}])
+                    if f in F.INT_FIELDS and isinstance(val, bool):
+                        val = 0                              # bool in an int attribute is the F22 stream
                 if f == "additional_variants":
                     img["unified"] = False
                 img[f] = val
@@ -95,9 +103,140 @@ class C02(Prop):
                 # images removed again through the public containers: emptied cells, variants without arches, re-adds
                 spec["edits"] = F.gen_edits(rng, spec)
             yield {"op": "cycle", "args": {"spec": spec}}
+        # ---- sequences (generator audit, section B)
+        for n in range(max(12, budget // 8)):
+            spec = F.gen(rng, tier, wide=True, max_variants=2, max_arches=2, max_cell=3)
+            kind = ["modify_after_load", "repair", "twin", "doc"][n % 4]
+            if kind == "modify_after_load":
+                # dump -> load -> MODIFY the loaded object (new images, removals) -> dump -> load: compared with the spec
+                extra = F.gen(rng, tier, wide=True, max_variants=1, max_arches=1, max_cell=2)
+                base = len(spec["pool"])
+                post = [["add", v, a, base + i] for v, a, i in extra["adds"]]
+                cells = F.cells_of_spec(spec)
+                for v, d in cells.items():
+                    for a, c in d.items():
+                        if c and rng.random() < 0.4:
+                            post.append(["discard", v, a, rng.choice(c)])
+                rng.shuffle(post)
+                spec2 = dict(spec, pool=spec["pool"] + extra["pool"])
+                F.make_unique(spec2["pool"])
+                yield {"op": "cycle2", "args": {"spec": spec2, "post": post}}
+            elif kind == "repair" and spec["pool"]:
+                # failed dumps (one attribute out of its domain) -> repair -> dumps: the text of the clean spec
+                i = rng.randrange(len(spec["pool"]))
+                f, val = F.rr([("size", 0), ("path", ""), ("type", "DVD"), ("type", "dvd "), ("format", "ISO"), ("format", "tar"), ("checksums", {}),
+                               ("implant_md5", "A" * 32), ("implant_md5", "a" * 31), ("bootable", None), ("subvariant", None), ("mtime", None),
+                               ("disc_number", "1"), ("volume_id", ""), ("arch", None), ("unified", 0), ("additional_variants", None)])
+                yield {"op": "repair", "args": {"spec": spec, "image": i, "field": f, "value": val}}
+            elif kind == "twin":
+                yield {"op": "twin", "args": {"spec": spec}}
+            else:
+                # a document not written by the library: keys the reader has documented defaults for are absent
+                doc = F.doc_of_spec(spec, F.rr(["1.2", "1.1", "1.2", "2.0"]), keep_defaults=rng.random() < 0.3)
+                for d in doc["payload"]["images"].values():
+                    for c in d.values():
+                        for r in c:
+                            if rng.random() < 0.5:
+                                r.pop("format", None)                      # read as "iso"
+                            if rng.random() < 0.3:
+                                r.pop("unified", None); r.pop("additional_variants", None) if not r.get("unified") else None
+                            if rng.random() < 0.2:
+                                r["mtime"] = str(r["mtime"]); r["bootable"] = int(r["bootable"])     # coerced by the reader
+                yield {"op": "doc", "args": {"doc": doc}}
 
     # ------------------------------------------------------------------ real side
+    def real_seq(self, case):
+        im = F.lib()
+        a = case["args"]
+        def guarded_dumps(m):
+            try:
+                return {"ok": m.dumps()}
+            except Exception as e:
+                return checklib.err_class(e)
+        if case["op"] == "doc":
+            out = {}
+            m = im.Images()
+            try:
+                m.loads(json.dumps(F.dec(a["doc"])))
+            except Exception as e:
+                return {"loads": checklib.err_class(e)}
+            out["loads"] = {"ok": F.snap(m)}
+            out["dumps"] = guarded_dumps(m)
+            if "ok" in out["dumps"]:
+                m2 = im.Images()
+                try:
+                    m2.loads(out["dumps"]["ok"]); out["loads2"] = {"ok": F.snap(m2)}; out["dumps2"] = guarded_dumps(m2)
+                except Exception as e:
+                    out["loads2"] = checklib.err_class(e)
+            return out
+        spec = a["spec"]
+        if case["op"] == "twin":
+            # two objects built interleaved in one process from the same spec; every read-only call twice
+            m1 = im.Images(); m2 = im.Images()
+            for m in (m1, m2):
+                m.header.version = spec["version"]
+                for f, val in spec["compose"].items():
+                    setattr(m.compose, f, copy.deepcopy(val))
+            o1 = []; o2 = []
+            for attrs in spec["pool"]:
+                o1.append(F.new_image(im, m1, attrs)); o2.append(F.new_image(im, m2, attrs, "inplace"))
+            for v, arch, idx in spec["adds"]:
+                m1.add(v, arch, o1[idx]); m2.add(v, arch, o2[idx])
+            t1 = guarded_dumps(m1); t2 = guarded_dumps(m2); t1b = guarded_dumps(m1)
+            ids = [list(im.identify_image(o)) for o in o1]
+            return {"dumps": t1, "twin": t2, "again": t1b, "identify_twice": ids == [list(im.identify_image(o)) for o in o1],
+                    "after_reads": F.snap_cells(m1.images)}
+        if case["op"] == "repair":
+            m, objs = F.build(spec)
+            obj = objs[a["image"]]
+            good = getattr(obj, a["field"])
+            setattr(obj, a["field"], F.dec(copy.deepcopy(a["value"])))
+            bad = guarded_dumps(m)
+            setattr(obj, a["field"], good)
+            out = {"failed": bad, "dumps": guarded_dumps(m)}
+            if "ok" in out["dumps"]:
+                m2 = im.Images(); m2.loads(out["dumps"]["ok"]); out["loads"] = {"ok": F.snap(m2)}
+            return out
+        if case["op"] == "cycle2":
+            base = dict(spec, pool=spec["pool"])
+            m, objs = F.build(base)
+            t1 = m.dumps()
+            m2 = im.Images(); m2.loads(t1)
+            # modify the LOADED object: new image objects are created for it, removals go by path
+            fresh = {}
+            for e in a["post"]:
+                if e[0] == "add":
+                    if e[3] not in fresh:
+                        fresh[e[3]] = F.new_image(im, m2, spec["pool"][e[3]])
+                    m2.add(e[1], e[2], fresh[e[3]])
+                else:
+                    path = spec["pool"][e[3]]["path"]
+                    for o in list(m2[e[1]][e[2]]):
+                        if o.path == path:
+                            m2[e[1]][e[2]].discard(o)
+            out = {"dumps": guarded_dumps(m2)}
+            if "ok" in out["dumps"]:
+                m3 = im.Images()
+                try:
+                    m3.loads(out["dumps"]["ok"]); out["loads"] = {"ok": F.snap(m3)}; out["dumps2"] = guarded_dumps(m3)
+                except Exception as e:
+                    out["loads"] = checklib.err_class(e)
+            return out
+
+    def final_spec(self, case):
+        """the spec describing the object that is finally dumped in a sequence case"""
+        a = case["args"]
+        spec = a["spec"]
+        if case["op"] == "cycle2":
+            return dict(spec, version="1.2", edits=list(spec.get("edits", [])) + a["post"])
+        return spec
+
     def real(self, case):
+        if case["op"] != "cycle":
+            try:
+                return self.real_seq(case)
+            except Exception as e:
+                return {"build": checklib.err_class(e)}
         spec = case["args"]["spec"]
         im = F.lib()
         out = {}
@@ -129,15 +268,31 @@ class C02(Prop):
 
     # ------------------------------------------------------------------ model side
     def model_requests(self, case):
+        if case["op"] == "doc":
+            return [{"op": "images_loads", "args": {"doc": F.enc(case["args"]["doc"])}}]
+        if case["op"] in ("cycle2", "twin", "repair"):
+            return [{"op": "images_cycle", "args": {"state": F.model_state(self.final_spec(case))}}]
         return [{"op": "images_cycle", "args": {"state": F.model_state(case["args"]["spec"])}}]
 
     def model_result(self, case, outs):
         o = outs[0]
+        if case["op"] == "doc":
+            return {"loads": {"ok": F.snap_of_model_state(o["ok"])} if "ok" in o else o}
         if isinstance(o, dict) and "ok" in o.get("loads", {}):
             o = dict(o); o["loads"] = {"ok": F.snap_of_model_state(o["loads"]["ok"])}
         return o
 
     def compare(self, case, real_out, model_out):
+        if case["op"] == "doc":
+            r, mo = real_out.get("loads"), model_out.get("loads")
+            return None if checklib.canon(r) == checklib.canon(mo) else {"real": r, "model": mo}
+        if case["op"] in ("cycle2", "twin", "repair"):
+            if "build" in real_out:
+                return None
+            r, mo = real_out.get("dumps"), model_out.get("dumps")
+            if checklib.canon(r) != checklib.canon(mo):
+                return {"real": {"dumps-sha": checklib.key_of(r)[:10]}, "model": {"dumps-sha": checklib.key_of(mo)[:10]}}
+            return None
         if real_out.get("build") != "ok":
             return None                                   # the spec could not be built (not part of this property)
         r = dict((k, real_out.get(k)) for k in ("dumps", "loads", "dumps2"))
@@ -149,7 +304,55 @@ class C02(Prop):
         return None
 
     # ------------------------------------------------------------------ the property itself, on the real output
+    def oracle_seq(self, case, real_out):
+        a = case["args"]
+        if "build" in real_out:
+            return None
+        if case["op"] == "doc":
+            doc = F.dec(a["doc"])
+            if "ok" not in real_out.get("loads", {}):
+                return {"kind": "document-refused", "observed": real_out.get("loads"), "required": "a valid document whose optional keys are absent loads"}
+            want = dict((v, dict((aa, sorted((F.read_record(r) for r in c), key=F.rec_key)) for aa, c in d.items())) for v, d in doc["payload"]["images"].items())
+            if checklib.canon(real_out["loads"]["ok"]["images"]) != checklib.canon(want):
+                return {"kind": "attributes-changed", "observed": {"read": real_out["loads"]["ok"]["images"], "document": doc["payload"]["images"]},
+                        "required": "every image read under its variant and arch with the document's attributes and the documented defaults (format iso, unified False, additional_variants [])"}
+            if "ok" in real_out.get("dumps", {}):
+                l2 = real_out.get("loads2", {})
+                if "ok" not in l2 or checklib.canon(l2["ok"]["images"]) != checklib.canon(want):
+                    return {"kind": "attributes-changed", "observed": {"second_read": l2}, "required": "written and re-read manifest equals the document's content"}
+                if real_out.get("dumps2") != real_out["dumps"]:
+                    return {"kind": "bytes-differ", "observed": {"second_dump": "differs"}, "required": "writing the re-read manifest reproduces the file byte for byte"}
+            return None
+        spec = self.final_spec(case)
+        if case["op"] == "twin":
+            if real_out["twin"] != real_out["dumps"] or real_out["again"] != real_out["dumps"] or not real_out["identify_twice"]:
+                return {"kind": "twin-differs", "observed": {"twin_equal": real_out["twin"] == real_out["dumps"], "second_call_equal": real_out["again"] == real_out["dumps"],
+                                                             "identify_twice_equal": real_out["identify_twice"]},
+                        "required": "two objects built interleaved from the same content (attributes assigned vs default containers filled in place) are written identically; read-only calls are repeatable"}
+            if checklib.canon(real_out["after_reads"]) != checklib.canon(F.expected_snapshot(spec, keep_empty=True)):
+                return {"kind": "state-changed-by-read", "observed": real_out["after_reads"], "required": "dumps / identify_image leave the manifest as built"}
+            return None
+        if case["op"] == "repair":
+            if "ok" in real_out["failed"]:
+                return None                                   # the value was accepted: nothing to repair
+            if "ok" not in real_out["dumps"]:
+                return {"kind": "repair-failed", "observed": real_out["dumps"], "required": "after the attribute is repaired the manifest is written"}
+        if "ok" in real_out.get("dumps", {}):
+            lo = real_out.get("loads", {})
+            if "ok" not in lo:
+                return {"kind": "reload-refused", "observed": {"reload": lo.get("err"), "identity_collisions": [], "built_under_version": spec["version"]},
+                        "required": "a manifest the library wrote can be read back"}
+            if checklib.canon(lo["ok"]["images"]) != checklib.canon(F.expected_snapshot(spec)):
+                return {"kind": "attributes-changed", "observed": {"read_back": lo["ok"]["images"], "sequence": case["op"]},
+                        "required": "after the sequence, every image is read back under its variant and arch with all fifteen attributes as put in"}
+            if "dumps2" in real_out and real_out["dumps2"] != real_out["dumps"]:
+                return {"kind": "bytes-differ", "observed": {"second_dump": "differs", "bool_in_int_fields": [], "only_bool_to_int": False},
+                        "required": "writing the re-read manifest reproduces the file byte for byte"}
+        return None
+
     def oracle(self, case, real_out):
+        if case["op"] != "cycle":
+            return self.oracle_seq(case, real_out)
         spec = case["args"]["spec"]
         if real_out.get("build") != "ok" or "ok" not in real_out.get("dumps", {}):
             return None                                   # the library did not agree to write
@@ -183,9 +386,18 @@ class C02(Prop):
         return None
 
     def nontrivial(self, case, real_out):
+        if case["op"] == "doc":
+            return "ok" in real_out.get("loads", {})
         return "ok" in real_out.get("dumps", {}) and bool(case["args"]["spec"]["adds"])
 
     def stats(self, case, real_out, dist):
+        if case["op"] != "cycle":
+            dist["seq:" + case["op"]] = dist.get("seq:" + case["op"], 0) + 1
+            if case["op"] == "repair":
+                k = "seq:repair.failed:" + ("accepted" if "ok" in real_out.get("failed", {}) else str(real_out.get("failed", real_out).get("err")))
+                dist[k] = dist.get(k, 0) + 1
+            if case["op"] == "doc":
+                return
         spec = case["args"]["spec"]
         def inc(k, n=1):
             dist[k] = dist.get(k, 0) + n
@@ -212,6 +424,8 @@ class C02(Prop):
                 ar.append(a[1])
 
     def shrink_candidates(self, case):
+        if case["op"] != "cycle":
+            return []
         spec = case["args"]["spec"]
         out = []
         for i in range(len(spec["adds"])):
